@@ -569,8 +569,11 @@ def run_check(prop, tier, seed, scratch, t0):
                                                     "violations are matched against /verif/known_findings.json by (monitor, entry, kind, ctx) patterns"],
         "wall_s": round(time.time() - t0, 1), "violations": len(printed),
     }
-    os.makedirs(os.path.join(VERIF, "evidence"), exist_ok=True)
-    json.dump(ev, open(os.path.join(VERIF, "evidence", prop + ".json"), "w"), indent=1, ensure_ascii=False)
+    # VERIF_EVIDENCE_DIR: used only when running against a seeded change (tools/mutant_run.sh), so that the
+    # committed evidence always describes /repo itself.
+    evdir = os.environ.get("VERIF_EVIDENCE_DIR") or os.path.join(VERIF, "evidence")
+    os.makedirs(evdir, exist_ok=True)
+    json.dump(ev, open(os.path.join(evdir, prop + ".json"), "w"), indent=1, ensure_ascii=False)
     print("%s %s seed=%d: evaluations=%d distinct_nontrivial=%d batches=%d violations(unknown)=%d known=%d inconclusive=%d wall=%.0fs" % (
         prop, tier, seed, merged["evals"], distinct, merged["batches"], len(printed), len(known_hits), len(inconclusive), time.time() - t0))
     if printed:
